@@ -142,10 +142,10 @@ Qed.
 
 Lemma map_bases_okdom obs (k : st -> list addr -> res) :
   (forall s l, dom (hp s) = D -> okdom D (k s l)) ->
-  forall nbs s acc, dom (hp s) = D -> okdom D (map_bases rec stk obs nbs s acc k).
+  forall nbs s acc, dom (hp s) = D -> okdom D (map_bases modname nm rec stk obs nbs s acc k).
 Proof.
   intros Hk. induction nbs as [|nb nbs IH]; intros s acc Hs; simpl; [apply Hk; exact Hs|].
-  destruct (find_old_base (hp s) obs nb).
+  destruct (base_counterpart modname nm (hp s) obs nb).
   - apply okdom_bind; [apply Hgood; exact Hs|]. intros s' u Hs'. apply IH. exact Hs'.
   - apply IH. exact Hs.
 Qed.
